@@ -6,10 +6,12 @@
 (* line 1 of a trace is "init" (files read back from the empty directory); *)
 (* an "append" line carries the entry id and ALL journal files read back   *)
 (* from disk after the call; a "find" / "api" line carries the arguments   *)
-(* and the returned entries (projected to entry ids; 0 = an entry that is  *)
-(* not byte-for-byte one of the table).  TLC evaluates the property level  *)
-(* of Chronicle on every line (CLAUSE rows, never aborting) and compares   *)
-(* with the implementation-shaped operators (DRIFT rows, not an alarm).    *)
+(* (instants; the zone the bounds were written in is recorded but is not   *)
+(* part of the meaning of the query) and the returned entries (projected   *)
+(* to entry ids; 0 = an entry that is not byte-for-byte one of the table). *)
+(* TLC evaluates the property level of Chronicle on every line (CLAUSE     *)
+(* rows, never aborting) and compares with the implementation-shaped       *)
+(* operators (DRIFT rows, not an alarm).                                   *)
 (***************************************************************************)
 EXTENDS Chronicle_MC, Json, IOUtils, SequencesExt
 
@@ -25,7 +27,7 @@ JOf(files) == LET S == ToSet(files) IN
 QOf(a) == [after |-> a.after, before |-> a.before, limit |-> a.limit, ok |-> a.ok, now |-> a.now]
 
 HeaderOK(t) == LET T == Traces[t].table IN
-               /\ T.cal = Cal /\ T.tod = Tod /\ T.at = EntAt /\ T.run = EntRun /\ T.ok = EntOk
+               /\ T.cal = Cal /\ T.tod = Tod /\ T.at = EntAt /\ T.run = EntRun /\ T.st = EntSt /\ T.zone = ZoneOff
 
 TraceInit ==
     /\ tid \in 1..Len(Traces)
